@@ -121,12 +121,12 @@ def airplanes_rows(screen_text):
         if m and "ICAO" not in l: rows[m.group(1)] = int(m.group(2))
     return rows
 
-def expected_counts(lines):
+def expected_counts(lines, formats=(17, 18)):
     good = [f for f in (parse_line(l) for l in split_lines(b"".join(lines))) if f is not None]
     dec = decodable(good)
     cnt = {}
     for f, d in zip(good, dec):
-        if d and get(bytearray(f), 0, 5) in (17, 18):
+        if d and get(bytearray(f), 0, 5) in formats:
             k = "%06x" % get(bytearray(f), 8, 24); cnt[k] = cnt.get(k, 0) + 1
     return cnt
 
@@ -156,6 +156,14 @@ def check_radar_stream(rng, tier, report):
         r.send(b"q"); st2 = r.wait_exit(); r.kill(); f.stop()
         report("radar/" + name, alive and got == want and st2 == 0, {"alive_during_feed": alive, "rows": got, "expected": want, "exit_after_q": st2,
                "panic": "panicked" in r.raw.decode(errors="ignore")})
+    # --limit-parsing: only DF17 lines are parsed - each of them exactly once, whatever lines of other formats stand before or after it
+    want17 = expected_counts(lines, formats=(17,))
+    for name, script in segmentations(rng, lines)[:1 if tier == "quick" else 3]:
+        r, f, snap, st = run_radar_feed(script + [("sleep", 2.0)], args=("--limit-parsing",), wait=0.8)
+        got = airplanes_rows(snap)
+        alive = st is None
+        r.send(b"q"); st2 = r.wait_exit(); r.kill(); f.stop()
+        report("radar/limit-parsing-" + name, alive and got == want17 and st2 == 0, {"alive_during_feed": alive, "rows": got, "expected": want17, "exit_after_q": st2})
     # disconnect without retry: clean exit
     r, f, snap, st = run_radar_feed([("send", b"".join(lines[:10])), ("sleep", 1.0), ("close",)], wait=1.5)
     st = r.wait_exit()
